@@ -78,7 +78,7 @@ Proof.
   intros Hs -> Hr Hh. rewrite (to_sample_correct_all m i (twin i) z Hr). cbn [bind].
   assert (Hr' : in_range (twin i) (spec_conv i (twin i) z)) by now apply spec_in_range.
   destruct (Hh _ Hr') as (f & E & Fin & V). exists f. repeat split; [exact E | exact Fin |].
-  rewrite V, amp_twin, spec_to_twin. unfold scale. now rewrite bits_twin.
+  rewrite V, amp_twin, spec_to_twin. unfold fscale. now rewrite bits_twin.
 Qed.
 
 Lemma f2i_signed (i : fmt) (f c : bf) (lo hi : Z) :
@@ -89,14 +89,14 @@ Proof.
   unfold fmin, fmax, half in *. rewrite Hs in *.
   destruct (mul_pow2_trunc prec emax prec_gt_0_ prec_lt_emax_ Hprec Hemax f c (bits i - 1) lo hi) as [E _];
     [lia | exact Fin | exact Hc | exact Dom | lia | lia |].
-  unfold f2i_val, scale. rewrite Hs, E. f_equal. lia.
+  unfold f2i_val, fscale. rewrite Hs, E. f_equal. lia.
 Qed.
 
 Lemma f2i_val_in_range (i : fmt) (f : bf) : in_domain prec emax f -> in_range i (f2i_val prec emax i f).
 Proof.
   intros [Fin Dom]. pose proof (bits_pos i).
   pose proof (Ztrunc_scaled_range (B2R f) (bits i - 1) ltac:(lia) Dom) as R.
-  unfold in_range, f2i_val, scale, fmin, fmax, half. destruct (signed i); lia.
+  unfold in_range, f2i_val, fscale, fmin, fmax, half. destruct (signed i); lia.
 Qed.
 
 Lemma f2i_unsigned (m : mode) (i : fmt) (f : bf) (g : res Z) (h : Z -> res Z) :
@@ -106,7 +106,7 @@ Proof.
   intros Hs -> Hh Dom. cbn [bind]. rewrite Hh.
   rewrite to_sample_correct_all by now apply f2i_val_in_range.
   rewrite spec_from_twin by exact Hs. f_equal.
-  unfold f2i_val, scale. rewrite bits_twin, signed_twin, Hs. lia.
+  unfold f2i_val, fscale. rewrite bits_twin, signed_twin, Hs. lia.
 Qed.
 End G.
 
